@@ -123,7 +123,7 @@ func enumeratePlans(counts map[string]int, rounds []roundOps, r *eng.Rng, budget
 		if ro.Kind == "full" {
 			fullSeen = true
 		}
-		for _, k := range []struct{ kind, mode string }{{"sync", "err"}, {"stat", "err"}, {"write", "err"}, {"write", "short"}, {"create", "err"}} {
+		for _, k := range []struct{ kind, mode string }{{"sync", "err"}, {"stat", "err"}, {"write", "err"}, {"write", "short"}, {"write", "shortnil"}, {"create", "err"}} {
 			for o := ro.From[k.kind]; o < ro.To[k.kind]; o++ {
 				plan := []eng.Fault{{Kind: k.kind, Ordinal: o, Count: 1, Mode: k.mode}}
 				if ro.Kind == "partial" && len(must)%2 == 0 {
@@ -169,7 +169,7 @@ func enumeratePlans(counts map[string]int, rounds []roundOps, r *eng.Rng, budget
 	}
 	must = append(must, forced...)
 	type km struct{ kind, mode string }
-	kinds := []km{{"write", "err"}, {"write", "short"}, {"sync", "err"}, {"create", "err"}, {"stat", "err"}}
+	kinds := []km{{"write", "err"}, {"write", "short"}, {"write", "shortnil"}, {"sync", "err"}, {"create", "err"}, {"stat", "err"}}
 	for _, k := range kinds {
 		n := counts[k.kind]
 		for i := 0; i < n; i++ {
@@ -213,7 +213,7 @@ func init() {
 	ck := &run.Check{
 		Prop:  "C06",
 		Level: "fault_enumeration",
-		Rule: "each steered store program (appends, partial/full/idle compactions with small buffers so that compaction output needs several buffered writes, child collections) runs once cleanly through the File substrate to count operations, then once per fault plan: every (kind, ordinal) single failure for create-open / WriteAt error / short write (a prefix really written, ENOSPC) / Sync / Stat, bursts of 2,3,8, failures persisting until a later ordinal, pairs of kinds, and a Stat failure that forces a full compaction combined with a failure of one of that compaction's first four syncs (quick: seeded sample of the plans, plus every single failure inside partial and first full compaction rounds; half of the partial-round plans skip to the final close + reopen as soon as the retry has succeeded). Monitors after every step: collection snapshot == reference content; after every round (successful or failed) Store.Snapshot is a non-decreasing prefix state; after every successful round a copy of the directory reopens to a prefix >= the store's; an OnError without a newly fired injected fault is a violation; after the faults, two drains and a caught-up close the reopened content must be the full reference content. distinct_nontrivial = distinct (store phase at the failing operation | kind | mode) triples among plans that actually fired.",
+		Rule: "each steered store program (appends, partial/full/idle compactions with small buffers so that compaction output needs several buffered writes, child collections) runs once cleanly through the File substrate to count operations, then once per fault plan: every (kind, ordinal) single failure for create-open / WriteAt error / short write (a prefix really written, ENOSPC) / short write reported by count only (n < len, nil error) / Sync / Stat, bursts of 2,3,8, failures persisting until a later ordinal, pairs of kinds, and a Stat failure that forces a full compaction combined with a failure of one of that compaction's first four syncs (quick: seeded sample of the plans, plus every single failure inside partial and first full compaction rounds; half of the partial-round plans skip to the final close + reopen as soon as the retry has succeeded). Monitors after every step: collection snapshot == reference content; after every round (successful or failed) Store.Snapshot is a non-decreasing prefix state; after every successful round a copy of the directory reopens to a prefix >= the store's; an OnError without a newly fired injected fault is a violation; after the faults, two drains and a caught-up close the reopened content must be the full reference content. distinct_nontrivial = distinct (store phase at the failing operation | kind | mode) triples among plans that actually fired.",
 		MinUnits:    8,
 		Assumptions: []string{"a failure may cost the round (content stays at the older prefix); only corruption, regression, silent loss or a stuck persister are violations", "a fault on an operation whose result moss ignores need not be surfaced"},
 	}
@@ -285,6 +285,9 @@ func init() {
 						mode := "err"
 						if f.Kind == "write" && f.N > 0 {
 							mode = "short"
+							if f.Err == "" {
+								mode = "short-without-error"
+							}
 						}
 						sr.Units[ph+"|"+f.Kind+"|"+mode]++
 					}
